@@ -798,7 +798,142 @@ def r127(ctx):
                             construct=f"while {short(w.test, 60)}: ... sleep(...) without poll()")
 
 
+def r129(ctx, m, cname, f):
+    """Abstract interpretation of the polling loop: once the external program has been
+    observed finished, the reader runs at least once more before the loop is left."""
+    rid = "R-12.9"
+    fl = flow_of(f)
+    cfg = fl.cfg
+    reads = [c for c in walk_local(f) if isinstance(c, ast.Call) and last_name(c) == "read_and_process_content"]
+    if not reads:
+        return
+    loops = []
+    for w in [w for w in walk_local(f) if isinstance(w, ast.While)]:
+        if any(w in loops_of(r) for r in reads):
+            loops.append(w)
+    if not loops:
+        raise AnalysisError(f"R-12.9: {cname}: reader calls are not inside a polling while-loop")
+    w = loops[-1] if len(loops) == 1 else [l for l in loops if not any(l in loops_of(o) for o in loops if o is not l)][0]
+    stopname = None
+    for ac in _add_calls(f):
+        nms, _ = _unpack_names(ac)
+        if nms and len(nms) == 4:
+            stopname = nms[2]
+    tnode = cfg.node_of(w.test)
+    # counters compared with constants in the loop condition
+    counters = sorted({x.left.id for x in ast.walk(w.test) if isinstance(x, ast.Compare) and isinstance(x.left, ast.Name) and isinstance(x.comparators[0], ast.Constant)})
+    init = {}
+    for c in counters:
+        vals = {d.value.value for d, _ in fl.rd(c, tnode) if d.kind == "assign" and isinstance(d.value, ast.Constant) and not _inside_loop(d.stmt, w)}
+        init[c] = min(vals) if vals else 0
+    read_nodes = {cfg.node_of(r).id for r in reads}
+    SAT = 6
+
+    def ev(e, st):
+        """-> list of (bool, state) ; state = (counters tuple, observed, read_since)"""
+        cnt, obs, rs = st
+        if isinstance(e, ast.BoolOp):
+            outs = [(None, st)]
+            is_or = isinstance(e.op, ast.Or)
+            results = []
+            pending = [(st, 0)]
+            while pending:
+                cur, i = pending.pop()
+                if i == len(e.values):
+                    results.append((not is_or, cur))
+                    continue
+                for val, nst in ev(e.values[i], cur):
+                    if val == is_or:
+                        results.append((val, nst))
+                    else:
+                        pending.append((nst, i + 1))
+            return results
+        if isinstance(e, ast.UnaryOp) and isinstance(e.op, ast.Not):
+            return [(not v, s2) for v, s2 in ev(e.operand, st)]
+        if not isinstance(e, (ast.BoolOp, ast.UnaryOp)) and stopname and any(isinstance(x, ast.Name) and x.id == stopname for x in ast.walk(e)):
+            return [(False, st)]
+        if isinstance(e, ast.Compare) and len(e.ops) == 1:
+            l, r, op = e.left, e.comparators[0], e.ops[0]
+            if isinstance(l, ast.Call) and last_name(l) == "poll" and isinstance(r, ast.Constant) and r.value is None and isinstance(op, (ast.Is, ast.IsNot)):
+                is_none_true = isinstance(op, ast.Is)
+                if obs:
+                    return [(not is_none_true, st)]
+                return [(is_none_true, st), (not is_none_true, (cnt, True, False))]
+            if isinstance(l, ast.Name) and l.id in counters and isinstance(r, ast.Constant) and isinstance(r.value, int):
+                v = dict(cnt)[l.id]
+                res = {ast.LtE: v <= r.value, ast.Lt: v < r.value, ast.GtE: v >= r.value, ast.Gt: v > r.value, ast.Eq: v == r.value, ast.NotEq: v != r.value}.get(type(op))
+                if res is not None:
+                    return [(res, st)]
+        if stopname and any(isinstance(x, ast.Name) and x.id == stopname for x in ast.walk(e)):
+            return [(False, st)]  # the stop path is allowed to leave without a further read
+        return [(True, st), (False, st)]
+
+    start = (tnode.id, (tuple(sorted(init.items())), False, False))
+    seen = set()
+    todo = [start]
+    violations = []
+    steps = 0
+    while todo and steps < 20000:
+        steps += 1
+        nid, st = todo.pop()
+        if (nid, st) in seen:
+            continue
+        seen.add((nid, st))
+        n = cfg.nodes[nid]
+        cnt, obs, rs = st
+        if n.kind == "test":
+            for val, nst in ev(n.ast, st):
+                for s2, lab in cfg.succ[nid]:
+                    if lab == ("T" if val else "F"):
+                        if nid == tnode.id and not val:
+                            if nst[1] and not nst[2]:
+                                violations.append(nst)
+                            continue  # left the loop
+                        todo.append((s2, nst))
+            continue
+        if n.kind == "stmt" and isinstance(n.ast, (ast.Assign, ast.AugAssign)):
+            d = dict(cnt)
+            if isinstance(n.ast, ast.Assign) and len(n.ast.targets) == 1 and isinstance(n.ast.targets[0], ast.Name) and n.ast.targets[0].id in d and isinstance(n.ast.value, ast.Constant):
+                d[n.ast.targets[0].id] = min(SAT, n.ast.value.value)
+            if isinstance(n.ast, ast.AugAssign) and isinstance(n.ast.target, ast.Name) and n.ast.target.id in d and isinstance(n.ast.value, ast.Constant) and isinstance(n.ast.op, ast.Add):
+                d[n.ast.target.id] = min(SAT, d[n.ast.target.id] + n.ast.value.value)
+            cnt = tuple(sorted(d.items()))
+        if nid in read_nodes:
+            rs = True
+        nst = (cnt, obs, rs)
+        if n.kind == "stmt" and isinstance(n.ast, (ast.Return, ast.Raise)):
+            continue
+        for s2, lab in cfg.succ[nid]:
+            if lab == "exc":
+                continue
+            sn = cfg.nodes[s2]
+            # leaving the loop by break: only the stop path does that (pruned above)
+            if sn.ast is not None and not _inside_loop(sn.ast, w) and sn.kind not in ("branch",) and nid != tnode.id:
+                if n.kind == "stmt" and isinstance(n.ast, ast.Break):
+                    if obs and not rs:
+                        violations.append(nst)
+                    continue
+            todo.append((s2, nst))
+    if violations:
+        ctx.bad(rid, w,
+                f"{cname}: after the external program has been observed finished the polling loop can be left without reading the trajectory once more: "
+                "frames written between the last read and the exit of the program are dropped and a truncated path is returned without an error",
+                construct=f"while {short(w.test, 80)}")
+    else:
+        ctx.ok(rid, w, f"{cname}: every exit of the polling loop after the program finished passes one more read ({len(seen)} abstract states over counters {counters})")
+
+
+def _inside_loop(node, loop):
+    n = node
+    while n is not None:
+        if n is loop:
+            return True
+        n = getattr(n, "_parent", None)
+    return False
+
+
 def run(ctx):
+    ctx.rule("R-12.9", "polling loops read the trajectory once more after the external program was observed finished (abstract interpretation over the loop's counter and the process state)", floor=2)
     ctx.rule("R-12.1", "every frame goes through add_to_path; stop tested before any further append; true edge ends all frame loops; returned success is add_to_path's", floor=5)
     ctx.rule("R-12.2", "frame reference = (trajectory file, per-frame counter / enumerate index), vel_rev = reverse", floor=5)
     ctx.rule("R-12.3", "order parameter computed from the same iteration's arrays; parallel frame queues consumed from the same end", floor=5)
@@ -822,6 +957,7 @@ def run(ctx):
         r123(ctx, m, cname, f, info)
         r125(ctx, m, cname, f, info)
         r126(ctx, m, cname, f, info)
+        ctx.attempt(r129, ctx, m, cname, f)
     ctx.attempt(r124, ctx)
     ctx.attempt(r127, ctx)
     # frames queued by the on-the-fly readers own their arrays (box/coordinates of frame k are frame k's)
@@ -870,11 +1006,14 @@ VARIANTS = [
     B("c12-lammps-wait-without-poll", LAMMPS, '                sleep(self.sleep)\n                if exe.poll() is not None:\n                    logger.debug("LAMMPS execution stopped")\n                    break\n', "                sleep(self.sleep)\n", "R-12.7", control=True),
     B("c12-gromacs-start-without-poll", GROMACS, '                sleep(self.SLEEP)\n                poll = self.check_poll()\n                if poll is not None:\n                    logger.debug("GROMACS execution stopped")\n                    break\n', "                sleep(self.SLEEP)\n", "R-12.7"),
     B("c12-lammps-shared-box-buffer", ENGPARTS, "            coordinate_snapshot = np.zeros((N_atoms, 6), dtype=np.float64)\n            box_snapshot = np.zeros((3, 3), dtype=np.float64)\n    return trajectory, box", "            coordinate_snapshot = np.zeros((N_atoms, 6), dtype=np.float64)\n    return trajectory, box", "R-12.8", control=True, why="seeded C12_a"),
+    B("c12-lammps-final-read-skipped", LAMMPS, "                while exe.poll() is None or iterations_after_stop <= 1:", "                while exe.poll() is None or iterations_after_stop < 1:", "R-12.9", control=True, why="seeded C12_b"),
+    B("c12-cp2k-no-extra-iteration", CP2K, "                while exe.poll() is None or iterations_after_stop <= 1:", "                while exe.poll() is None:", "R-12.9"),
     # ---- preserving
     K("c12-keep-turtle-plain-increment", TURTLE, "                    break\n                step_nr += 1", "                    break\n                step_nr = step_nr + 1"),
     K("c12-keep-lammps-index-interfaces", LAMMPS, "        left, _, right = interfaces\n        initial_conf", "        left, right = interfaces[0], interfaces[2]\n        initial_conf"),
     K("c12-keep-cp2k-wait-timeout", CP2K, "exe.wait(timeout=360)", "exe.wait(timeout=600)"),
     K("c12-keep-cp2k-pop-order", CP2K, "                        pos = pos_traj.pop(0)\n                        vel = vel_traj.pop(0)\n", "                        vel = vel_traj.pop(0)\n                        pos = pos_traj.pop(0)\n"),
+    K("c12-keep-lammps-counter-lt-two", LAMMPS, "                while exe.poll() is None or iterations_after_stop <= 1:", "                while exe.poll() is None or iterations_after_stop < 2:"),
     K("c12-keep-ase-rename-stop", ASE, "status, success, stop, add = self.add_to_path(", "status, success, finished, add = self.add_to_path(", also=[(ASE, "                if stop:\n", "                if finished:\n")]),
     K("c12-keep-gromacs-rename-index", GROMACS, "            for i, data in enumerate(gro.get_gromacs_frames()):\n                # Update the configuration file:\n                system.set_pos((trr_file, i))",
       "            for i, data in enumerate(gro.get_gromacs_frames()):\n                # Update the configuration file:\n                frame_ref = (trr_file, i)\n                system.set_pos(frame_ref)"),
